@@ -2,7 +2,10 @@
 // prelude/env.rs (owner: validate / C02, also used by fees / C09) -- the REAL transaction-environment
 // and account types of revm_primitives, declared to Verus, and the (trusted, minimal) assumed
 // specifications of the alloy / bytes / std operations the validation and fee functions call.
-// `//@include prelude/env.rs` INSIDE verus!{} AFTER prelude/ruint.rs.
+// `//@include prelude/env.rs` INSIDE verus!{} AFTER prelude/ruint.rs and AFTER either prelude/state.rs (units that
+// work on the journaled state: it declares SpecId, Address, FixedBytes, Bytecode, AccountStatus, AccountInfo, Account,
+// EvmStorageSlot, InvalidTransaction/InvalidHeader (opaque there), EVMError, Database, Uint::default) or
+// prelude/env_base.rs (the same names for units that do not: InvalidTransaction / InvalidHeader transparent).
 // Requires in scope: revm_primitives::{AccessListItem, Account, AccountInfo, AccountStatus, Address,
 //   AnalysisKind, AuthorizationList, BlobExcessGasAndPrice, BlockEnv, Bytecode, Bytes, CfgEnv, Env,
 //   EvmStorageSlot, FixedBytes, InvalidHeader, InvalidTransaction, RecoveredAuthorization, SignedAuthorization,
@@ -12,19 +15,6 @@
 // Opaque: Address, FixedBytes<N>, Bytes, bytes::Bytes, AccessListItem, Signed/RecoveredAuthorization,
 //   EnvKzgSettings, Bytecode, EvmStorageSlot, AccountStatus -- seen through the uninterpreted views below.
 // ======================================================================================
-#[verifier::external_type_specification]
-pub struct ExSpecId(SpecId);
-#[verifier::external_type_specification]
-#[verifier::external_body]
-pub struct ExFixedBytes<const N: usize>(FixedBytes<N>);
-// (alloy derives IntoIterator for FixedBytes; Verus wants the iterator type declared once FixedBytes is)
-#[verifier::external_type_specification]
-#[verifier::external_body]
-#[verifier::reject_recursive_types(T)]
-pub struct ExArrayIntoIter<T, const N: usize>(core::array::IntoIter<T, N>);
-#[verifier::external_type_specification]
-#[verifier::external_body]
-pub struct ExAddress(Address);
 #[verifier::external_type_specification]
 #[verifier::external_body]
 pub struct ExBytes(Bytes);
@@ -59,23 +49,6 @@ pub struct ExBlockEnv(BlockEnv);
 pub struct ExTxEnv(TxEnv);
 #[verifier::external_type_specification]
 pub struct ExEnv(Env);
-#[verifier::external_type_specification]
-pub struct ExInvalidHeader(InvalidHeader);
-#[verifier::external_type_specification]
-pub struct ExInvalidTransaction(InvalidTransaction);
-#[verifier::external_type_specification]
-#[verifier::external_body]
-pub struct ExBytecode(Bytecode);
-#[verifier::external_type_specification]
-#[verifier::external_body]
-pub struct ExEvmStorageSlot(EvmStorageSlot);
-#[verifier::external_type_specification]
-#[verifier::external_body]
-pub struct ExAccountStatus(AccountStatus);
-#[verifier::external_type_specification]
-pub struct ExAccountInfo(AccountInfo);
-#[verifier::external_type_specification]
-pub struct ExAccount(Account);
 
 // ---- the fork parameter `SPEC: Spec` -------------------------------------------------------------
 // `SPEC::enabled(f)` is a PROVIDED method of the external trait `Spec` (specification.rs:
@@ -108,10 +81,6 @@ pub broadcast proof fn axiom_ord_le_uint<const BITS: usize, const LIMBS: usize>(
 }
 pub assume_specification<T: Ord> [core::cmp::min::<T>] (a: T, b: T) -> (r: T)
     ensures r == (if ord_le(a, b) { a } else { b });
-
-/// ruint: `#[derive(Default)]` on `struct Uint { limbs: [u64; LIMBS] }` -- the zero value
-pub assume_specification<const BITS: usize, const LIMBS: usize> [<Uint<BITS, LIMBS> as core::default::Default>::default] () -> (r: Uint<BITS, LIMBS>)
-    ensures uval(r) == 0;
 
 /// `Uint::from(Uint)` is the identity (ruint from.rs: UintTryFrom<Uint<B,L>> for Uint<B,L>)
 #[verifier::external_body]
@@ -179,16 +148,7 @@ pub assume_specification [Bytecode::is_empty] (b: &Bytecode) -> (r: bool)
 pub assume_specification [Bytecode::is_eip7702] (b: &Bytecode) -> (r: bool)
     ensures r == bc_is_eip7702(*b);
 
-// ---- database trait and the error type of the handlers ---------------------------------------------
-// (requires in scope: revm_primitives::{db::Database, EVMError})
-#[verifier::external_trait_specification]
-pub trait ExDatabase {
-    type ExternalTraitSpecificationFor: Database;
-    type Error;
-}
-#[verifier::external_type_specification]
-#[verifier::reject_recursive_types(DBError)]
-pub struct ExEVMError<DBError>(EVMError<DBError>);
+// ---- the error type of the handlers (requires in scope: revm_primitives::EVMError) -------------------
 
 // result.rs: `impl<DBError> From<InvalidTransaction> for EVMError<DBError> { Self::Transaction(value) }` (and Header)
 pub assume_specification<DBError> [<EVMError<DBError> as core::convert::From<InvalidTransaction>>::from] (value: InvalidTransaction) -> (r: EVMError<DBError>)
